@@ -47,9 +47,9 @@ VARIANTS = [
       "        self._smooth_fa_freqs = np.array(freqs, dtype=float)\n", "R-INV", names="smooth_fa_freqs"),
     B("range-setter-forgets-flag", "        self._smooth_freq_range = np.array(limits)\n        self._cached_smooth_fa = False\n",
       "        self._smooth_freq_range = np.array(limits)\n", "R-INV"),
-    B("reset-values-no-clear", "        self._npts = len(new_values)\n        self.clear_cache()\n",
-      "        self._npts = len(new_values)\n", "R-INV", names="reset_values"),
-    B("reset-values-no-npts", "        self._npts = len(new_values)\n        self.clear_cache()\n",
+    B("reset-values-no-clear", "        self._npts = len(self._values)\n        self.clear_cache()\n",
+      "        self._npts = len(self._values)\n", "R-INV", names="reset_values"),
+    B("reset-values-no-npts", "        self._npts = len(self._values)\n        self.clear_cache()\n",
       "        self.clear_cache()\n", "R-NPTS"),
     B("new-mutator", "    def add_series(self, series):\n",
       "    def scale(self, factor):\n        self._values *= factor\n\n    def add_series(self, series):\n", "R-INV", names="scale"),
@@ -95,8 +95,8 @@ VARIANTS = [
       "        self.arias_intensity = 0.0\n        self._cached_params.clear()\n"),
     T("extra-invalidation", "        self.reset_values(self.values + constant)\n",
       "        self.reset_values(self.values + constant)\n        self.clear_cache()\n"),
-    T("inline-clear-in-reset", "        self._npts = len(new_values)\n        self.clear_cache()\n",
-      "        self._npts = len(new_values)\n        self._cached_fa = False\n        self.clear_cache()\n"),
+    T("inline-clear-in-reset", "        self._npts = len(self._values)\n        self.clear_cache()\n",
+      "        self._npts = len(self._values)\n        self._cached_fa = False\n        self.clear_cache()\n"),
     T("rebase-via-reset", "        self._values -= acceleration_correction\n        self.clear_cache()\n",
       "        self.reset_values(self._values - acceleration_correction)\n"),
     T("getter-renamed-local", "            pga = im.calc_peak(self.values)\n            self._cached_params[\"pga\"] = pga\n            return pga\n",
